@@ -84,7 +84,9 @@ func makeSourceTree(rng *rand.Rand, root string, shape int, big bool) []string {
 		perm := rng.Perm(len(names))
 		for i := 0; i < k; i++ {
 			p := filepath.Join(root, "s", names[perm[i]])
-			if i == 0 {
+			if i == 0 && big {
+				mk(p, 40000+rng.Intn(30000), 3) // several full-size legacy chunks of bytes the escape tables protect
+			} else if i == 0 {
 				mk(p, 513+rng.Intn(5000), 3) // always one file full of bytes the escape tables protect
 			} else {
 				mk(p, sizes[rng.Intn(len(sizes))], rng.Intn(4))
@@ -201,7 +203,7 @@ func genFidelity(c *ctx) {
 			escape:    c.rng.Intn(3) == 0,
 			overwrite: c.rng.Intn(3) == 0,
 			compress:  []string{"", "yes", "no", "auto"}[c.rng.Intn(4)],
-			bufsize:   []string{"", "1k", "4k", "1M"}[c.rng.Intn(4)],
+			bufsize:   []string{"", "1k", "4k", "16k", "1M"}[c.rng.Intn(5)],
 			timeout:   10,
 			quiet:     c.rng.Intn(2) == 0,
 			deadline:  40 * time.Second,
@@ -226,6 +228,9 @@ func genFidelity(c *ctx) {
 			fc.cfg.overwrite = false // duplicate names with -y are refused before the transfer starts
 		}
 		fc.chunk = []int{0, 1, 7, 100, 5000}[c.rng.Intn(5)]
+		if fc.big && fc.chunk > 0 && fc.chunk < 100 {
+			fc.chunk = 100 // megabytes in 1-2 byte reads through pipes (and relays) do not finish within the harness deadline
+		}
 		fc.desc = fmt.Sprintf("%s shape=%d big=%v rechunk=%d seed=%d", describeCfg(fc.cfg), fc.shape, fc.big, fc.chunk, fc.seed)
 		cases[i] = fc
 	}
